@@ -86,7 +86,17 @@ type hcCfg struct {
 	Timeout   bool   `json:"timeout"`
 	NoSSE     bool   `json:"nosse"`
 	Store     bool   `json:"store"`
+	StoreFail bool   `json:"storefail"` // the event store's SessionClosed reports an error (a store that is down when the session ends)
 	Version   string `json:"version"`
+}
+
+// hcFailingStore is an event store that is down at the moment a session ends: SessionClosed does its work and reports an
+// error ("writes start failing midway" of C05: shutdown must still terminate).
+type hcFailingStore struct{ EventStore }
+
+func (s hcFailingStore) SessionClosed(ctx context.Context, sessionID string) error {
+	s.EventStore.SessionClosed(ctx, sessionID)
+	return errors.New("verif: event store is down")
 }
 
 type hcScenario struct {
@@ -764,6 +774,9 @@ func (r *hcRun) setup() error {
 	}
 	if cfg.Store {
 		opts.EventStore = NewMemoryEventStore(nil)
+		if cfg.StoreFail {
+			opts.EventStore = hcFailingStore{opts.EventStore}
+		}
 	}
 	r.handler = NewStreamableHTTPHandler(func(*http.Request) *Server { return r.server }, opts)
 	r.hookTable()
@@ -1414,7 +1427,7 @@ func hcRunScenario(t *testing.T, l *hcLog, sc *hcScenario) {
 	l.start = time.Now()
 	l.mu.Unlock()
 	l.emit("reset", "trace", sc.ID, "stateless", sc.Cfg.Stateless, "timeout", sc.Cfg.Timeout, "sse", !sc.Cfg.NoSSE && !sc.Cfg.Stateless,
-		"store", sc.Cfg.Store, "version", sc.Cfg.Version)
+		"store", sc.Cfg.Store, "storefail", sc.Cfg.StoreFail, "version", sc.Cfg.Version)
 	var run *hcRun
 	func() {
 		defer func() {
